@@ -282,7 +282,9 @@ func runC32(c *Ctx) {
 		ok := true
 		for _, r := range te.Rows {
 			ends := callIndex(r, func(e *Effect) bool { return e.Callee != nil && e.Callee.Name() == "EndTask" })
-			forgets := callIndex(r, func(e *Effect) bool { return e.Callee != nil && strings.HasPrefix(e.Callee.Name(), "forgetReceiverTaskID") })
+			forgets := callIndex(r, func(e *Effect) bool {
+				return e.Callee != nil && strings.HasPrefix(e.Callee.Name(), "forgetReceiverTaskID")
+			})
 			if (ends >= 0) != (forgets >= 0) || (ends >= 0 && forgets < ends) {
 				ok = false
 			}
@@ -295,7 +297,9 @@ func runC32(c *Ctx) {
 		n := 0
 		for _, r := range te.Rows {
 			ends := r.Calls(func(e *Effect) bool { return e.Callee != nil && e.Callee.Name() == "EndTask" })
-			forgets := r.Calls(func(e *Effect) bool { return e.Callee != nil && strings.HasPrefix(e.Callee.Name(), "forgetReceiverTaskID") })
+			forgets := r.Calls(func(e *Effect) bool {
+				return e.Callee != nil && strings.HasPrefix(e.Callee.Name(), "forgetReceiverTaskID")
+			})
 			if len(ends) != len(forgets) {
 				ok = false
 			}
@@ -372,7 +376,7 @@ func runC32(c *Ctx) {
 	receiveAccountedRule(c)
 	receiverReleaseRules(c, 1, 10)
 	lifecycleBeforeStallRule(c, "lifecycle-before-stall", 100)
-	staleElementRule(c, "stale-element", 5)
+	staleElementRule(c, "stale-element", 5, func(string) bool { return true })
 	resetSingleEndRule(c, "reset-single-end", 1)
 }
 
